@@ -27,6 +27,9 @@ class CSSImportRule(cssrule.CSSRule):
           ;
     """
 
+    # imports of imports are followed to this depth only
+    _MAXIMPORTDEPTH = 32
+
     def __init__(self, href=None, mediaText=None, name=None,
                  parentRule=None, parentStyleSheet=None, readonly=False):
         """
@@ -293,10 +296,17 @@ class CSSImportRule(cssrule.CSSRule):
 
                 # a sheet which is being loaded already (it imports itself,
                 # directly or via other sheets) is not loaded again
+                # (nor is a chain of imports followed without end: a server
+                # may answer every URL with a sheet importing yet another)
                 ancestor = self.parentStyleSheet
+                depth = 0
                 while ancestor is not None:
                     if ancestor.href == fullhref:
                         raise ValueError('Circular @import of %r.' % fullhref)
+                    depth += 1
+                    if depth > self._MAXIMPORTDEPTH:
+                        raise ValueError('@import nested deeper than %s sheets: %r.'
+                                         % (self._MAXIMPORTDEPTH, fullhref))
                     owner = ancestor.ownerRule
                     ancestor = owner.parentStyleSheet if owner is not None else None
 
